@@ -273,6 +273,53 @@ def vector_pairing(prog, cls, meth):
     return dc, f, order, sources
 
 
+PER_INIT = ('_initialize', '_create_vectors', '_create_stochiometric_matrices', 'py_initialize', 'check_parameters', 'check_species')
+
+
+def _not_idempotent(f):
+    """why running this initialize() a second time on the same object gives another object state (or None): a C vector that is appended
+    to without having been cleared in the same call, or an in-place update of an attribute"""
+    cleared = set()
+    for st in f.body:
+        if isinstance(st, ast.Expr) and isinstance(st.value, ast.Call) and isinstance(st.value.func, ast.Attribute) and st.value.func.attr == 'clear':
+            cleared.add(src(st.value.func.value).replace(' ', ''))
+        for n in ast.walk(st):
+            if isinstance(n, ast.Call) and isinstance(n.func, ast.Attribute) and n.func.attr in ('push_back', 'append', 'extend', 'insert') and \
+                    src(n.func.value).replace(' ', '').startswith('self.') and src(n.func.value).replace(' ', '') not in cleared:
+                return '%s grows on every call (`%s`, never cleared in %s)' % (src(n.func.value), src(n)[:50], f.name)
+            if isinstance(n, ast.AugAssign) and src(n.target).replace(' ', '').startswith('self.') and not isinstance(n.target, ast.Subscript):
+                return '%s is updated in place (`%s`)' % (src(n.target), util.stmt_key(n)[:50])
+    return None
+
+
+def check_initialize_once(ctx):
+    """Propensity, delay and rule objects are set up (initialize) when they are created.  Setting them up again on every model
+    initialisation would be harmless only for classes whose initialize() is idempotent; a call of X.initialize(...) from a method that
+    runs per initialisation is therefore checked against every class X can be."""
+    prog = ctx.prog
+    for cname in ('Model', 'LineageModel'):
+        ci = prog.classes[cname]
+        for mname in PER_INIT:
+            f = ci.methods.get(mname)
+            if f is None:
+                continue
+            bad = []
+            for c in ast.walk(f):
+                if isinstance(c, ast.Call) and isinstance(c.func, ast.Attribute) and c.func.attr == 'initialize' and len(c.args) >= 2 and \
+                        not (isinstance(c.func.value, ast.Name) and c.func.value.id == 'self'):
+                    rn = src(c.func.value).lower()
+                    bases = [b for b, w in (('Rule', 'rule'), ('Propensity', 'prop'), ('Delay', 'delay')) if w in rn] or ['Rule', 'Propensity', 'Delay']
+                    for base in bases:
+                        for sub in [base] + prog.subclasses(base):
+                            dc, g = prog.resolve_method(sub, 'initialize')
+                            why = _not_idempotent(g) if g is not None else None
+                            if why:
+                                bad.append('%s (%s) calls initialize() on every model initialisation; %s.initialize is not idempotent: %s'
+                                           % (src(c)[:50], ctx.loc(ci.module, c), dc, why))
+            ctx.ob('R8.3-rebuild', '%s.%s/objects-set-up-once' % (cname, mname), not bad, ctx.loc(ci.module, f),
+                   'no per-initialisation method re-runs initialize() of an object whose set-up accumulates', '; '.join(sorted(set(bad))[:2]))
+
+
 def check_rebuild(ctx):
     prog = ctx.prog
     for cls in ('Model', 'LineageModel'):
@@ -677,6 +724,7 @@ def check(ctx):
     n2 = check_invalidation(ctx, 'LineageModel', DEF_FIELDS | LINEAGE_DEF)
     check_refusal(ctx)
     check_rebuild(ctx)
+    check_initialize_once(ctx)
     f = check_copies(ctx)
     check_seed(ctx)
     check_globals(ctx, f)
